@@ -194,6 +194,8 @@ Round 6 seeded changes: r6m1 (DCE's unused-initializer cleanup over all graphs w
   annotations); r6m3 (CSE tensor key without dtype) -> template (l): Constants with equal bytes/shape and different element
   types, observed through Cast.  New finding on the unchanged tree (known, proposed_fixes/C05-cse-omitted-output-key.diff +
   -demo.py): cse-merges-node-with-omitted-output (template (n), corpus finding-cse-merges-node-with-omitted-output.json).
+  Committed as 87b8ce6: finding = fixed; the Coq key got the same pattern (Model.cse_key_eqb_u: which outputs are omitted, the
+  identities of the empty-named outputs are a parameter `omitted` of cse / PCse; cse_pres etc. re-proved for every `omitted`).
 Wall time: quick ~60-110 s under load (40 specs x (22 single passes + 5 sequences) + corpus), thorough ~9-12 min (400 specs).
 """
 
@@ -800,8 +802,10 @@ def model_expr(name: str, p, m, conv: Conv, info, before: str, base: int) -> str
     if name == "ident":
         return f"(identity_elim {FUEL} {before})"
     if name in ("cse", "cse100"):
-        info["cond"] = f"extra_okb [] (PCse {cZ(p.size_limit)} {base}) {before}"
-        return f"(fst (cse {cZ(p.size_limit)} {before} {base}))"
+        # 87b8ce6: the key says which outputs are omitted (empty name): their identities are handed to the model
+        om = clist(str(x) for x in sorted(set(conv.vid(v) for v in info["values"] if v.name == "")))
+        info["cond"] = f"extra_okb [] (PCse {cZ(p.size_limit)} {base} {om}) {before}"
+        return f"(fst (cse {om} {cZ(p.size_limit)} {before} {base}))"
     if name in ("dedup", "dedup8", "deduph"):
         order = [gref(g) for g in m.graphs()]
         # deduph: key = (dtype, dims, sha512 of the exact bytes; for string tensors of the length-prefixed strings since
@@ -1363,9 +1367,6 @@ def classify(spec, passes, failure):  # noqa: F811
     if step_pass == "inline" and kind == "checker-rejects-after" and "has been used as output names multiple times" in failure \
             and spec.get("functions") and _dup_name_is_cross_scope(spec, passes, failure):
         return "inline-name-collision-with-nested-scope"
-    if step_pass in ("cse", "cse100") and kind == "checker-rejects-after" and "has an empty string in the graph" in failure and any(
-            "" in n["outs"] for n in _walk_nodes(spec)):
-        return "cse-merges-node-with-omitted-output"
     if step_pass == "inline" and kind == "checker-rejects-after" and "has output size 0" in failure and any(
             "" in n["outs"] and n.get("dom") == "local" for n in _walk_nodes(spec)):
         return "inline-omitted-call-output"
@@ -1814,7 +1815,7 @@ def targeted_cases(rng, n: int):
         cases.append(({"opset": 18, "inputs": [["x0", "F2"], ["c0", "B"]], "inits": [], "functions": [],
                        "nodes": [N("If", ["c0"], ["y"], then_branch=["g", mth], else_branch=["g", mel])], "outputs": [["y", "F2"]]},
                       rng.choice([["shape"], ["shape2"], ["shape2", "dce"], ["shape", "cse"], ["shape2", "shape"]]), rng.randrange(1 << 30)))
-        # (n) a node with an OMITTED optional output next to the same node with that output used (known finding:
+        # (n) a node with an OMITTED optional output next to the same node with that output used (fixed 87b8ce6:
         #     cse-merges-node-with-omitted-output when the full node comes second)
         pools = [N("MaxPool", ["x3"], ["p1", ""], kernel_shape=["is", [1]]), N("MaxPool", ["x3"], ["p2", "pidx"], kernel_shape=["is", [1]])]
         if rng.random() < 0.5:
